@@ -108,6 +108,7 @@ def c04_jobs(tier):
         Job('hist-default', 'c04', 'hist', q(tier, 30000, 600000), timeout=q(tier, 900, 10000)),
         Job('hist-tiny-pools', 'c04', 'hist', q(tier, 15000, 300000), defines=TINY[0], timeout=q(tier, 900, 10000)),
         Job('hist-1byte-ids', 'c04', 'hist', q(tier, 15000, 300000), defines=TINY[1], timeout=q(tier, 900, 10000)),
+        Job('hist-no-long-long', 'c04', 'hist', q(tier, 6000, 150000), defines={'ARDUINOJSON_USE_LONG_LONG': 0, 'ARDUINOJSON_POOL_CAPACITY': 8}, timeout=q(tier, 900, 10000)),
         Job('hist-memcheck', 'c04', 'hist', q(tier, 1200, 40000), defines=TINY[0], flavour='plain', wrapper='memcheck', timeout=q(tier, 900, 10000), single_timeout=600),
         Job('small-tiny', 'c04', 'small%d' % q(tier, 4, 5), 0, defines=TINY[0], timeout=q(tier, 900, 20000)),
         Job('small-default', 'c04', 'small%d' % q(tier, 4, 5), 0, timeout=q(tier, 900, 20000)),
@@ -213,6 +214,8 @@ def c08_jobs(tier):
         Job('default', 'c08', 'gen', q(tier, 40000, 2000000), timeout=q(tier, 900, 7200)),
         Job('wide-lengths', 'c08', 'gen', q(tier, 15000, 800000), defines={'ARDUINOJSON_STRING_LENGTH_SIZE': 4}, shim=True, timeout=q(tier, 900, 7200)),
         Job('float-small', 'c08', 'gen', q(tier, 15000, 600000), defines={'ARDUINOJSON_USE_DOUBLE': 0, 'ARDUINOJSON_STRING_LENGTH_SIZE': 1, 'ARDUINOJSON_SLOT_ID_SIZE': 1}),
+        # map16/map32 and array16/array32 header boundary (65535/65536/65537 members); one object costs about a minute to build
+        Job('boundary32', 'c08', 'boundary32', q(tier, 4, 12), flavour='asan2', workers=q(tier, 4, 12), timeout=q(tier, 900, 3600), single_timeout=600),
     ]
 
 
@@ -311,6 +314,8 @@ def c06_jobs(tier):
         Job('ledger-default', 'c04', 'c06hist', q(tier, 20000, 500000), leaks=True, timeout=q(tier, 900, 10000)),
         Job('ledger-tiny-pools', 'c04', 'c06hist', q(tier, 12000, 300000), defines=TINY[0], leaks=True, timeout=q(tier, 900, 10000)),
         Job('ledger-1byte-ids', 'c04', 'c06hist', q(tier, 12000, 300000), defines=TINY[1], leaks=True, timeout=q(tier, 900, 10000)),
+        # doubles are then the only values kept in extension slots (long is 64-bit here, the library stores 32-bit integers)
+        Job('ledger-no-long-long', 'c04', 'c06hist', q(tier, 8000, 200000), defines={'ARDUINOJSON_USE_LONG_LONG': 0, 'ARDUINOJSON_POOL_CAPACITY': 8}, leaks=True, timeout=q(tier, 900, 10000)),
         Job('deser-bound', 'c03', 'bound', q(tier, 60000, 3000000), timeout=q(tier, 900, 10000)),
         Job('deser-bound-wide', 'c03', 'bound', q(tier, 30000, 1000000), defines={'ARDUINOJSON_STRING_LENGTH_SIZE': 4, 'ARDUINOJSON_POOL_CAPACITY': 4}, timeout=q(tier, 900, 10000)),
     ]
